@@ -161,6 +161,12 @@ def V(rnd, kind=None):
     if r < 0.25:
         u = rs.randn(3, 1)
         return {'$nd': (u @ u.T * 1e-4).tolist()}
+    if r < 0.40:
+        # a VCV that came out of an earlier rotation: symmetric only up to the last bit
+        A = rs.randn(3, 3)
+        M = A @ A.T * 1e-4
+        Q, _ = np.linalg.qr(rs.randn(3, 3))
+        return {'$nd': (Q @ M @ Q.T).tolist()}
     A = rs.randn(3, 3)
     M = A @ A.T * 1e-4
     return {'$nd': ((M + M.T) / 2).tolist()}
@@ -237,6 +243,10 @@ def gen_pool(ns, rnd, size):
         lambda: {'fn': 'statistics.vcv_local2cart', 'args': [{'$nd': [[1e-4], [2e-4], [rnd.uniform(0, 1e-3)]]}, lat(), lon()]},
         lambda: {'fn': 'statistics.error_ellipse', 'args': [V(rnd)]},
         lambda: {'fn': 'statistics.relative_error', 'args': [lat(), lon(), V(rnd), V(rnd), {'$nd': (np.eye(3) * 1e-6).tolist()}]},
+        lambda: {'fn': 'statistics.relative_error', 'args': [lat(), lon(), V(rnd), V(rnd),
+                                                             {'$nd': (np.random.RandomState(rnd.randrange(2 ** 31)).randn(3, 3) * 1e-6).tolist()}]},
+        lambda: {'fn': 'statistics.vcv_local2cart', 'args': [{'$nd': (np.random.RandomState(rnd.randrange(2 ** 31)).randn(3, 3) * 1e-6).tolist()},
+                                                             lat(), lon()]},
         lambda: {'fn': 'statistics.k_val95', 'args': [rnd.randint(-2, 150)]},
         lambda: {'fn': 'statistics.circ_hz_pu', 'args': [rnd.uniform(0.01, 0.1), rnd.uniform(0.001, 0.01)]},
         lambda: {'fn': 'survey.first_vel_params', 'args': [rnd.uniform(0.5, 1.0), rnd.uniform(1e7, 5e7)]},
